@@ -12,6 +12,8 @@ The same harness code runs in two modes:
 import z3, numpy as _np, fractions, itertools, math, time, hashlib, sys
 
 Fraction = fractions.Fraction
+if hasattr(sys, 'set_int_max_str_digits'):
+    sys.set_int_max_str_digits(0)
 
 
 class Infeasible(BaseException):
@@ -47,12 +49,55 @@ class Ctx:
         self.alg = {}         # algebraic constants already introduced
         self.stats = stats
         self.fresh = itertools.count()
+        self.fp_cache = {}; self.fp_point = {}; self.alg_axiom_ids = set()
         self.sin_exact = 0           # >0: link sin(t) to exact values for t = pi*p/q <= sin_exact*pi (C07/C08 oracles)
         self.exp_underflow = False   # IEEE fact exp(t)=0 for t<=-746 (switched on by C03 harnesses)
         self.feas_timeout = 8000
 
     def base(self):
         return self.assumes + self.side + self.axioms + self.pc
+
+    def fingerprint(self, sr):
+        """value of n/d at a fixed pseudo-random rational point (a FILTER for candidate-equal arguments of the
+        Ackermannised functions; equality itself is always decided by the solver)"""
+        key = (sr.n.get_id(), sr.d.get_id())
+        if key in self.fp_cache:
+            return self.fp_cache[key]
+        vals = []
+        for t in (sr.n, sr.d):
+            seen = set(); stack = [t]; consts = []
+            while stack:
+                u = stack.pop()
+                if u.get_id() in seen:
+                    continue
+                seen.add(u.get_id())
+                if z3.is_const(u) and u.decl().kind() == z3.Z3_OP_UNINTERPRETED:
+                    consts.append(u)
+                else:
+                    stack.extend(u.children())
+            subs = []
+            for u in consts:
+                nm = str(u)
+                if nm not in self.fp_point:
+                    if nm in CONST_HP:
+                        self.fp_point[nm] = z3.RealVal(CONST_HP[nm])          # 40-digit value of PI, SQ2, ...
+                    else:
+                        h = int(hashlib.sha256(nm.encode()).hexdigest()[:8], 16)
+                        self.fp_point[nm] = z3.RealVal('%d/%d' % (h % 997 + 3, h % 89 + 7))
+                subs.append((u, self.fp_point[nm]))
+            try:
+                val = z3.simplify(z3.substitute(t, *subs)) if subs else z3.simplify(t)
+            except z3.Z3Exception:
+                val = None
+            vals.append(val)
+        fp = None
+        try:
+            if all(v is not None and z3.is_rational_value(v) for v in vals) and vals[1].numerator_as_long() != 0:
+                fp = cfrac(vals[0]) / cfrac(vals[1])
+        except (ValueError, ZeroDivisionError, z3.Z3Exception):
+            fp = None
+        self.fp_cache[key] = fp
+        return fp
 
     def solver(self, timeout=None):
         sv = z3.Solver()
@@ -315,6 +360,22 @@ class SR:
         for a, v in lst:
             if z3.eq(a.n, self.n) and z3.eq(a.d, self.d):
                 return v
+        # same argument written differently (a+b vs b+a, another association of a matrix product): if the difference
+        # of the two arguments is the zero polynomial (decided by the solver without hypotheses) the same variable is reused (sound: only identical
+        # polynomials are merged; everything else is left to the functional-consistency axioms)
+        fp = None
+        if not (is_const(self.n) and is_const(self.d)):
+            fp = c.fingerprint(self)
+            for a, v in lst:
+                fq = c.fp_cache.get((a.n.get_id(), a.d.get_id()))
+                if fp is None or fq is None or abs(fp - fq) > Fraction(1, 10 ** 18) * max(1, abs(fp)):
+                    continue        # the two arguments differ at the sample point: not candidates
+                sv = z3.Solver(); sv.set('timeout', 5000)
+                sv.add(*[f for f in c.axioms if f.get_id() in c.alg_axiom_ids])    # only the defining facts of PI, SQ2, ...
+                sv.add((a.n * self.d - self.n * a.d) != 0)       # unsat <=> the same polynomial modulo the algebraic constants
+                if str(sv.check()) == 'unsat':
+                    lst.append((self, v))
+                    return v
         if is_const(self.n) and is_const(self.d):
             val = cfrac(self.n) / cfrac(self.d)
             ex = EXACT.get(name, lambda v: None)(val)
@@ -551,7 +612,9 @@ def algebraic(name, poly, lo, hi):
     if name not in c.alg:
         v = z3.Real(name)
         c.alg[name] = v
-        c.axioms += [poly(v) == 0, v > lo, v < hi]
+        ax = [poly(v) == 0, v > lo, v < hi]
+        c.axioms += ax
+        c.alg_axiom_ids.update(f.get_id() for f in ax)
     return c.alg[name]
 
 
@@ -560,10 +623,15 @@ def pi_sym():
     if 'PI' not in c.alg:
         v = z3.Real('PI')
         c.alg['PI'] = v
-        c.axioms += [v > rv(Fraction(314159265358979, 10 ** 14)), v < rv(Fraction(314159265358980, 10 ** 14))]
+        ax = [v > rv(Fraction(314159265358979, 10 ** 14)), v < rv(Fraction(314159265358980, 10 ** 14))]
+        c.axioms += ax
+        c.alg_axiom_ids.update(f.get_id() for f in ax)
     return SR(c.alg['PI'])
 
 
+CONST_HP = {'PI': '3.1415926535897932384626433832795028841972', 'SQ2': '1.4142135623730950488016887242096980785697', 'SQ3': '1.7320508075688772935274463415058723669428',
+            'SQ5': '2.2360679774997896964091736687312762354406', 'S8': '0.3826834323650897717284599840303988667613', 'C8': '0.9238795325112867561281831893967882868224',
+            'S5': '0.5877852522924731291687059546390727685976', 'S25': '0.9510565162951535721164393333793821434057'}
 CONST_VALUES = {'PI': math.pi, 'SQ2': math.sqrt(2), 'SQ3': math.sqrt(3), 'SQ5': math.sqrt(5),
                 'S8': math.sin(math.pi / 8), 'C8': math.cos(math.pi / 8), 'S5': math.sin(math.pi / 5), 'S25': math.sin(2 * math.pi / 5)}
 
@@ -597,7 +665,9 @@ def sinpi(num, den):
         if 'S8' not in c_.alg:
             s8 = z3.Real('S8'); c8 = z3.Real('C8')
             c_.alg['S8'] = s8; c_.alg['C8'] = c8
-            c_.axioms += [s8 > 0, c8 > s8, c8 < 1, s8 * s8 + c8 * c8 == 1, 4 * s8 * c8 == q]
+            ax = [s8 > 0, c8 > s8, c8 < 1, s8 * s8 + c8 * c8 == 1, 4 * s8 * c8 == q]
+            c_.axioms += ax
+            c_.alg_axiom_ids.update(f.get_id() for f in ax)
         return SR((c_.alg['S8'] if fr == Fraction(1, 8) else c_.alg['C8']) * sign)
     if fr in (Fraction(1, 10), Fraction(3, 10)):
         # sin(pi/10) = (sqrt5-1)/4 ; sin(3pi/10) = (sqrt5+1)/4
